@@ -18,11 +18,34 @@ def main(argv=None):
         print('no check for %s (%s)' % (pid, e))
         return 2
     rep = report.Report(pid, tier, seed, getattr(mod, 'LEVEL', 'proof'))
+    replay = None
+    if a.replay:
+        # a replay file is the record of one refuted obligation (rule, site, detail, witness): show it, re-run the analysis of the
+        # current tree in the tier that found it, and say whether that very obligation is still refuted
+        import json
+        try:
+            replay = json.load(open(a.replay))
+            o = replay.get('obligation', {})
+            print('REPLAY %s [%s] %s @ %s' % (replay.get('property'), o.get('rule'), o.get('id'), o.get('site')))
+            print('  recorded: %s' % o.get('detail'))
+            if o.get('witness'):
+                print('  witness: %s' % o.get('witness'))
+            tier = replay.get('tier', tier)
+            rep.tier = tier
+        except (OSError, ValueError) as e:
+            print('cannot read replay file %s: %s' % (a.replay, e))
+            return 2
     try:
         mod.run(rep, tier, seed)
     except Exception as e:
         traceback.print_exc()
         rep.incomplete('engine', 'engine', '', 'analysis aborted: %s: %s' % (type(e).__name__, str(e)[:300]))
+    if replay is not None:
+        oid = replay.get('obligation', {}).get('id')
+        now = [o for o in rep.obl if o['id'] == oid]
+        st = now[0]['status'] if now else 'absent'
+        print('REPLAY RESULT: obligation %s is now %s on the current tree' % (oid, st))
+        os.environ['GLV_EVIDENCE'] = os.path.join(os.environ.get('GLV_WORK') or os.path.join(report.ROOT, '.work'), 'replay-evidence')
     return report.finish(rep, 'python3 -m glv.check %s --tier %s' % (pid, tier))
 
 
